@@ -5,4 +5,23 @@ CHECKS = {
    technique='Coq proof over model regenerated from source (K-gen) + in-Coq correspondence + direct oracle',
    ref='DESIGN.md section 5 C13'),
 }
+_EXP_NOTE = ('Trusted: Coq kernel; hand-written model Expect/Model.v of expect.py (Expecter, both searchers) and the buffer setter, tied to the code on every run by the correspondence job expect-hist (results, before/after, spans, internal _before/_buffer and events consumed compared after every call, in-Coq evaluation); '
+             'Base/PySeq.v (CPython slicing/find, job pysem) and Base/Rx.v (regex engine standing in for re when the model is executed, job rx-vs-re); theorems are parametric in the regex engine (law R: re.search returns the leftmost match). read_nonblocking is abstracted to a list of events Data/TIMEOUT/EOF/error.')
+CHECKS.update({
+ 'C01': dict(
+   text='Theorems (Coq, closed under the global context): for every history of expect-family calls from every reachable state over every event list, handed-back text followed by pending text = received text (history_conserves); a TIMEOUT consumes nothing, EOF hands back everything and clears, buffer assignment replaces the pending text. Proved on the naive reference and transferred to the model of the code through the refinement theorem of C03.',
+   note=_EXP_NOTE + ' read/readline/readlines/iteration are compositions of expect(); they are judged by a direct oracle on the real code, not by a theorem.',
+   technique='Coq proof (refinement + invariant) over hand-written model + in-Coq correspondence + direct oracle', ref='DESIGN.md section 5 C01'),
+ 'C02': dict(
+   text='Theorems: every reported match is the leftmost candidate of pattern i in the searched window, after/before/match span describe that occurrence, no listed pattern has a candidate that starts earlier, first listed wins ties (strict-< fold characterised for all lists), markers keep their list positions. For the string searcher a candidate is proved to be the leftmost occurrence of the literal; for regexes it is what the engine returns (law R), proved for the executable engine.',
+   note=_EXP_NOTE + ' Capture groups beyond group 0 are CPython re and are only compared by the direct oracle.',
+   technique='Coq proof over hand-written model + in-Coq correspondence + direct oracle', ref='DESIGN.md section 5 C02'),
+ 'C03': dict(
+   text='Central refinement theorem (Coq): for every reachable state, pattern list, searcher kind, window (None or >= 1), timeout-0 flag and every list of transport events, the incremental Expecter = the naive procedure "search all pending text (or its last W characters) after each read": same outcome, before/after, events consumed, pending text; lifted to all histories (W / patterns changing per call, trimmed buffers left by earlier calls, buffer assignments). Includes the incremental tail search of the string searcher (straddling occurrences).',
+   note=_EXP_NOTE, technique='Coq refinement proof over hand-written model + in-Coq correspondence + direct oracle', ref='DESIGN.md section 5 C03, Appendix A'),
+ 'C04': dict(
+   text='Theorems: when EOF / TIMEOUT / a transport error ends a call the result is the index of the marker if listed, else that exception, never anything else; before = all pending text; EOF clears pending text and search buffer; a match already present in the searchable pending text wins whatever the transport does next (also with timeout 0); EOF is sticky on an ended stream.',
+   note=_EXP_NOTE + ' The exception message formatting (str(spawn)) and the per-transport EOF conditions are exercised by the direct oracle / belong to C06.',
+   technique='Coq proof over hand-written model + in-Coq correspondence + direct oracle', ref='DESIGN.md section 5 C04'),
+})
 NOT_YET = {}
